@@ -104,6 +104,10 @@ def generate(rng, tier):
         for v in (range(256) if tier != 'quick' else range(0, 256, 5)):
             lines.append('crc ' + hx(base + bytes([v])))
         lines.append('end'); cases.append(lines)
+    # pointer-width integer fields, within 32 bits (beyond: known finding F3, replayed from findings/)
+    base = len(cases)
+    for k in range(dict(quick=6, thorough=200, search=20)[tier]):
+        cases.append(['case %d rpc' % (base + k), 'wide %d %d' % (rng.choice([0, 1, 255, 65536, 2 ** 32 - 1, rng.below(2 ** 32)]), rng.choice([0, -1, 1, -2 ** 31, 2 ** 31 - 1, rng.below(2 ** 31)])), 'end'])
     return cases
 
 
@@ -142,6 +146,9 @@ def oracle(case, impl):
             if out != 'echo same=true': bad.append('%s: %s' % (line, out))
         elif t[0] == 'echo-burst':
             if out != 'burst %sxsame' % t[3]: bad.append('%s: of %s concurrent requests on one connection: %s' % (line, t[3], out))
+        elif t[0] == 'wide':
+            if out != 'wide seen=%s %s' % (t[1], t[2]):
+                bad.append('wide-fields: the handler observed `%s` for a message with usize/isize fields %s %s' % (out, t[1], t[2]))
         elif t[0] == 'fail':
             exp = 'fail %d %s' % (int(t[1]) % 5, t[2])
             if out != exp: bad.append('%s: client saw `%s`, handler returned `%s`' % (line, out, exp))
@@ -166,3 +173,19 @@ def stats(verdicts):
                 d['frames_bitflipped_impl'] += int(kvs.get('flips', 0)); d['max_frame'] = max(d['max_frame'], int(kvs.get('len', 0)))
             elif k in ('echo', 'fail'): d[k] += 1
     return d
+
+
+def explain(v):
+    """F3 (known finding): rkyv is built with its default `size_32`: pointer-width integers are archived as 32 bits.  A violation is
+    attributed to it iff it is confined to `wide` lines whose value does not fit 32 bits."""
+    def big(line):
+        t = line.split()
+        return t[0] == 'wide' and (int(t[1]) >= 2 ** 32 or not -2 ** 31 <= int(t[2]) < 2 ** 31)
+    lines = [d[1] for d in v['disagree']] + [m[1] for m in v['spec'] if m[0] >= 0]
+    msgs = [m[2] for m in v['spec'] if m[0] < 0]
+    if (lines or msgs) and all(big(l) for l in lines) and all(m.startswith('wide-fields') for m in msgs):
+        # the oracle messages do not carry their line: accept them only if every `wide` line of the case that fails is a big one
+        for l, o in zip(v['case'], v['impl']):
+            if l.startswith('wide') and not big(l) and o != 'wide seen=%s %s' % tuple(l.split()[1:3]): return None
+        return 'F3-usize-archived-as-32-bits'
+    return None
